@@ -332,7 +332,7 @@ func layoutSource(toks []string, rng *rand.Rand, o *RenderOpts) string {
 			inVar = false
 		}
 	}
-	b.WriteString("\n")
+	b.WriteString([]string{"\n", "", " // end", " /* end */", "\n \t", "\n// end\n", "\r\n"}[rng.Intn(7)])
 	return b.String()
 }
 
